@@ -364,3 +364,5 @@ for p in ["C14", "C18", "C06"]:
 H_FSMPOS = {"fn": "vh_fsm_position", "what": "runFSM's (lastIndex,lastTerm) as reported to a snapshot request after a batch, after a restore, after a failed restore", "bounds": "3 scenarios", "covers": ["fsmpos.after-batch", "fsmpos.after-restore", "fsmpos.after-failed-restore"]}
 for p in ["C11", "C02"]:
     CHECKS[p]["harnesses"].append(H_FSMPOS)
+
+CHECKS["C07"]["harnesses"].append(H_TRANSFER)
